@@ -1,6 +1,6 @@
 (* L3 model: src/rapidquilt/cmd.rs (read_series_file, cmd_push, save_applied_patches),
    src/rapidquilt/apply/common.rs (ModifiedFiles, choose_filename_to_patch, apply_one_file_patch,
-   rollback_and_save_rej_files, rollback_and_save_backup_files, save_modified_file,
+   rollback_and_render_rej_files, save_rej_files, rollback_and_save_backup_files, save_modified_file,
    clean_empty_directories, save_backup_file) and apply/sequential.rs, as of the fixed tree, on an
    abstract file system (regular files with mode bits and directories, no symlinks).
    The parallel driver is meant to produce the same result (C06); it is compared with this model.
@@ -222,16 +222,21 @@ Definition parent (p : npath) : npath := removelast p.
 Inductive fserr := NotFound | FsOther.
 
 (* open for reading *)
+(* The empty relative path (a name with fewer components than the strip level) is the empty string for
+   the system calls - base_dir is "" without -d - and those answer ENOENT. *)
 Definition fs_read (fs : fsys) (p : npath) : file + fserr :=
+  match p with [] => inr NotFound | _ =>
   if existsb (is_file fs) (prefixes p) then inr FsOther           (* ENOTDIR *)
   else match lookup_file p (fs_files fs) with
        | Some f => inl f
        | None => if is_dir fs p then inr FsOther                   (* EISDIR *)
                  else inr NotFound
-       end.
+       end
+  end.
 
 Definition fs_exists (fs : fsys) (p : npath) : bool :=
-  negb (existsb (is_file fs) (prefixes p)) && (is_file fs p || is_dir fs p).
+  match p with [] => false | _ =>
+  negb (existsb (is_file fs) (prefixes p)) && (is_file fs p || is_dir fs p) end.
 
 Definition remove_assoc (p : npath) (l : list (npath * file)) : list (npath * file) :=
   filter (fun e => negb (npath_eqb p (fst e))) l.
@@ -483,30 +488,41 @@ Notation "'dom' x <- e ; f" := (mbind e (fun x => f))
 Definition mop (op : fsys -> fsys + fserr) (on_err : fserr -> res unit) : M unit :=
   fun fs => match op fs with inl fs' => (fs', ROk tt) | inr e => (fs, on_err e) end.
 
-(* rollback_and_save_rej_files *)
-Fixpoint rollback_and_save_rej (fuel : nat) (dm : N) (st : astate) (index : nat) : M astate :=
+(* rollback_and_render_rej_files: the failing patch is rolled back in memory and the reject of each
+   of its failing file patches is rendered; nothing is written yet *)
+Definition rej_file := (bytes * bytes)%type.       (* name (as joined to the base directory), content *)
+
+Fixpoint rollback_and_render_rej (fuel : nat) (st : astate) (index : nat) (acc : list rej_file)
+  : res (astate * list rej_file) :=
   match fuel with
-  | O => mret st
+  | O => ROk (st, acc)
   | S f =>
       match a_applied st with
-      | [] => mret st
+      | [] => ROk (st, acc)
       | s :: rest =>
-          if Nat.ltb index (st_index s) then mlift RPanic            (* assert!(index <= rejected) *)
-          else if Nat.ltb (st_index s) index then mret st
+          if Nat.ltb index (st_index s) then RPanic                  (* assert!(index <= rejected) *)
+          else if Nat.ltb (st_index s) index then ROk (st, acc)
           else
-            dom r <- mlift (ov_rollback (a_files st) s);
+            dor r <- ov_rollback (a_files st) s;
             let '(ov', _) := r in
             let st' := {| a_applied := rest; a_files := ov' |} in
             if r_failed (st_report s) then
-              let rn := rej_name (st_target s) in
-              if has_dotdot rn then mlift (RErr EOutOfModel) else
-              dom data <- mlift (write_rej_bytes s);
-              dom _ <- mop (fun fs => fs_create dm fs (normalize rn) None data)
-                           (fun e => match e with NotFound => ROk tt     (* "Bypassing reject" *)
-                                                | FsOther => RErr ESave end);
-              rollback_and_save_rej f dm st' index
-            else rollback_and_save_rej f dm st' index
+              dor data <- write_rej_bytes s;
+              rollback_and_render_rej f st' index (acc ++ [(rej_name (st_target s), data)])
+            else rollback_and_render_rej f st' index acc
       end
+  end.
+
+(* save_rej_files: after the modified files are saved and the emptied directories removed *)
+Fixpoint save_rej_files (dm : N) (rejs : list rej_file) : M unit :=
+  match rejs with
+  | [] => mret tt
+  | (rn, data) :: rest =>
+      if has_dotdot rn then mlift (RErr EOutOfModel) else
+      dom _ <- mop (fun fs => fs_create dm fs (normalize rn) None data)
+                   (fun e => match e with NotFound => ROk tt     (* "Bypassing reject" *)
+                                        | FsOther => RErr ESave end);
+      save_rej_files dm rest
   end.
 
 (* save_modified_file *)
@@ -570,7 +586,8 @@ Inductive backup_count := BAll | BLast (n : nat).
 
 Record config := {
   c_fuzz : nat; c_backup : backup_mode; c_backup_count : backup_count; c_dry_run : bool;
-  c_default_mode : N }.
+  c_default_mode : N;
+  c_preload : bool        (* the parallel driver loads (reads and parses) every patch of the range first *) }.
 
 Definition patches_db := list (bytes * bytes).           (* patch file name -> content *)
 
@@ -590,9 +607,9 @@ Fixpoint apply_file_patches (fs : fsys) (st : astate) (index : nat) (sp : series
 
 (* the loop over the patches: (state, final_patch) *)
 Fixpoint apply_series (cfg : config) (db : patches_db) (st : astate) (index : nat)
-         (series : list series_patch) : M (astate * nat) :=
+         (series : list series_patch) : M (astate * nat * list rej_file) :=
   match series with
-  | [] => mret (st, index)
+  | [] => mret (st, index, [])
   | sp :: rest =>
       match db_get (sp_name sp) db with
       | None => mlift (RErr EPatchLoad)
@@ -605,9 +622,10 @@ Fixpoint apply_series (cfg : config) (db : patches_db) (st : astate) (index : na
               dom x <- mlift (apply_file_patches fs st index sp (c_fuzz cfg) (pp_fps p) false);
               let '(failed, st') := x in
               if failed then
-                if c_dry_run cfg then mret (st', index)
-                else dom st'' <- rollback_and_save_rej (S (length (a_applied st'))) (c_default_mode cfg) st' index;
-                     mret (st'', index)
+                if c_dry_run cfg then mret (st', index, [])
+                else dom x <- mlift (rollback_and_render_rej (S (length (a_applied st'))) st' index []);
+                     let '(st'', rejs) := x in
+                     mret (st'', index, rejs)
               else apply_series cfg db st' (S index) rest
           end
       end
@@ -616,10 +634,11 @@ Fixpoint apply_series (cfg : config) (db : patches_db) (st : astate) (index : na
 (* apply_patches (sequential): number of applied patches *)
 Definition apply_patches (cfg : config) (db : patches_db) (series : list series_patch) : M nat :=
   dom x <- apply_series cfg db {| a_applied := []; a_files := [] |} 0 series;
-  let '(st, final) := x in
+  let '(st, final, rejs) := x in
   if c_dry_run cfg then mret final else
   dom cleaning <- save_all (c_default_mode cfg) (a_files st) [];
   dom _ <- clean_all cleaning;
+  dom _ <- save_rej_files (c_default_mode cfg) rejs;
   let do_backups := match c_backup cfg with
                     | Always => true
                     | OnFail => negb (Nat.eqb final (length series))
@@ -689,12 +708,31 @@ Definition resolve_range (fs : fsys) (g : goal) : res (list series_patch * nat *
 
 (* the push command: the file system afterwards and the outcome; ROk true = exit 0, ROk false and
    RErr = exit 1, RPanic = crash *)
+(* parallel.rs apply_patches: all patches of the range are read and parsed before any is applied; a
+   patch that does not load ends the run before anything is written (the sequential driver loads
+   each patch when its turn comes, so there the patches before it are applied and saved) *)
+Fixpoint preload (db : patches_db) (series : list series_patch) : res unit :=
+  match series with
+  | [] => ROk tt
+  | sp :: rest =>
+      match db_get (sp_name sp) db with
+      | None => RErr EPatchLoad
+      | Some data =>
+          match parse_patch data (sp_strip sp) false with
+          | Ok (ParseErr _) => RErr EPatchLoad
+          | Panic | Diverge => RPanic
+          | Ok (Parsed _) => preload db rest
+          end
+      end
+  end.
+
 Definition cmd_push (cfg : config) (db : patches_db) (g : goal) : M bool :=
   dom fs <- mget;
   dom rr <- mlift (resolve_range fs g);
   let '(series, first, last) := rr in
   if Nat.eqb first last then mret true else
   let range := firstn (last - first) (skipn first series) in
+  dom _ <- mlift (if c_preload cfg then preload db range else ROk tt);
   dom applied_n <- apply_patches cfg db range;
   dom _ <- (if c_dry_run cfg then mret tt
             else save_applied (c_default_mode cfg) (firstn applied_n range));
